@@ -24,6 +24,12 @@ var (
 	jsBaseErr  error
 )
 
+// jsBaseScript is soyutils.js compiled once; every VM runs it afresh. (Earlier versions cloned one
+// loaded VM with otto's Copy, which shares structure between the clones: after some scripts had
+// run in other clones, a for-in loop over an object without own properties no longer saw its
+// prototype's properties, and keys(augmentMap(['k': 1], [:])) came out empty. An engine artefact.)
+var jsBaseScript *otto.Script
+
 func jsBaseVM() (*otto.Otto, error) {
 	jsBaseOnce.Do(func() {
 		f, err := os.Open("/repo/soyjs/lib/soyutils.js")
@@ -47,10 +53,16 @@ func jsBaseVM() (*otto.Otto, error) {
 			buf.WriteByte('\n')
 		}
 		vm := otto.New()
-		if _, err := vm.Run(buf.String()); err != nil {
+		sc2, err := vm.Compile("soyutils.js", buf.String())
+		if err != nil {
 			jsBaseErr = fmt.Errorf("soyutils.js: %v", err)
 			return
 		}
+		if _, err := vm.Run(sc2); err != nil {
+			jsBaseErr = fmt.Errorf("soyutils.js: %v", err)
+			return
+		}
+		jsBaseScript = sc2
 		jsBase = vm
 	})
 	return jsBase, jsBaseErr
@@ -58,11 +70,14 @@ func jsBaseVM() (*otto.Otto, error) {
 
 // newJSVM returns a fresh VM with soyutils.js loaded.
 func newJSVM() (*otto.Otto, error) {
-	b, err := jsBaseVM()
-	if err != nil {
+	if _, err := jsBaseVM(); err != nil {
 		return nil, err
 	}
-	return b.Copy(), nil
+	vm := otto.New()
+	if _, err := vm.Run(jsBaseScript); err != nil {
+		return nil, fmt.Errorf("soyutils.js: %v", err)
+	}
+	return vm, nil
 }
 
 // jsLit renders a Go string as a JavaScript string literal.
